@@ -192,6 +192,26 @@ func genC06(tier string, r *core.Rand, run int) C06Plan {
 		pl.Input, pl.Family = genMixed(r, size)
 	}
 	pl.CRC = r.Bool()
+	if !rebuild && size < 20000 && r.Chance(0.08) {
+		// other goroutines compress their own inputs at the same time
+		pl.Family = "concurrent"
+		pl.Parts = []Part{genPart(r, size)}
+		for i, n := 0, r.Range(1, 3); i < n; i++ {
+			sz := r.Range(0, size+1)
+			in, _ := genMixed(r, sz)
+			pl.Conc = append(pl.Conc, C06Conc{Input: in, CRC: r.Chance(0.7), Part: genPart(r, sz)})
+		}
+		n := core.Choice(r, []int{53, 97, 193, 389})
+		dens := core.Choice(r, []float64{0.002, 0.01, 0.03, 0.1})
+		pl.Yield = make([]int, n)
+		for i := range pl.Yield {
+			if r.Chance(dens) {
+				pl.Yield[i] = 1 + r.Intn(50)
+			}
+		}
+		pl.Yield[r.Intn(n)] = 1 + r.Intn(50)
+		return pl
+	}
 	if r.Chance(0.15) {
 		pl.Fault = &C06Fault{Kind: core.Choice(r, []string{"wfail", "wshort", "rerr", "rerr"})}
 		switch r.Intn(3) {
